@@ -29,12 +29,19 @@ class RefError:
 
 
 class RefResult:
+    def nodes_for(self, path):
+        """Merged field nodes responsible for an error path (trailing list indices belong to the field)."""
+        p = list(path)
+        while p and isinstance(p[-1], int):
+            p.pop()
+        return self.nodes_at.get(tuple(p))
+
     def __init__(self):
         self.data = None
         self.errors = []
         self.calls = []        # expected explicit resolver calls
         self.default_calls = []
-        self.nodes_at = {}     # path tuple (without list indices) -> [FieldSel]
+        self.nodes_at = {}     # response path of a field (list indices of ancestors included) -> merged [FieldSel]
         self.request_error = None
 
 
@@ -149,7 +156,7 @@ class RefExec:
         pending = []
         for key, nodes in grouped.items():
             p = path + [key]
-            self.res.nodes_at[tuple(x for x in p if isinstance(x, str))] = nodes
+            self.res.nodes_at[tuple(p)] = nodes
             try:
                 out[key] = self.exec_field(obj_type, obj, key, nodes, p)
             except Propagate as pr:
